@@ -4,7 +4,12 @@ use super::*;
 use crate::error::Result;
 use std::collections::HashMap;
 use std::path::Path;
+#[cfg(not(zipora_verif))]
 use std::sync::{Arc, Mutex};
+#[cfg(zipora_verif)]
+use std::sync::Arc;
+#[cfg(zipora_verif)]
+use crate::verif::sync::Mutex;
 
 /// Cache invalidation tracking
 #[derive(Debug, Clone)]
